@@ -18,6 +18,7 @@ Definition tr (perm : seq nat) (s shp offs : seq nat) : bool := transpose_gather
 Definition sl (a b : option Z) (st : Z) (n : nat) (l : seq nat) : bool := slice_list a b st n == l.
 """
 
+LAYOUTS = ['C', 'C', 'F', 'T', 'C']
 SHAPES = [(4,), (1,), (3, 2), (2, 3), (4, 1), (2, 3, 2), (1, 2, 3), (3, 1, 2), (5,), (2, 2)]
 
 
@@ -287,7 +288,7 @@ def check_ops(rep, algopy, rng, tier, terms, metas):
         except Exception:
             return          # NumPy itself rejects the arguments: outside the quantifier
         try:
-            x = UTPM(data.copy())
+            x = UTPM(lib.relayout(data.copy(), LAYOUTS[rep.evaluations % len(LAYOUTS)]))     # C / Fortran / transposed coefficient arrays
             y = f_impl(x)
             yd = numpy.asarray(y.data)
         except Exception as e:
@@ -299,8 +300,18 @@ def check_ops(rep, algopy, rng, tier, terms, metas):
                           % (name, extra or '', data.shape[2:], yd.shape[2:], ref.shape[2:]),
                           dict(kind='op', case=meta, data=data.tolist() if not numpy.iscomplexobj(data) else None))
             return
+        # where NumPy hands out a fresh array the result must not alias the operand either (writing into it would write into the operand)
+        try:
+            np_fresh = bool(numpy.size(yd)) and x.data.ndim > 2 and not numpy.shares_memory(numpy.asarray(f_np(x.data[0, 0])), x.data[0, 0])
+        except Exception:
+            np_fresh = False
+        if np_fresh and numpy.shares_memory(numpy.asarray(y.data), x.data):
+            rep.violation('op:%s:aliases-operand' % key, '%s returns an object sharing memory with its operand where NumPy returns a fresh array' % name, dict(kind='op', case=meta))
+            return
         if view:
-            if numpy.size(yd) and not numpy.shares_memory(y.data, x.data):
+            # exactly as in NumPy: a view where NumPy returns a view of the coefficient slice (a reshape of a non-contiguous slice is a copy there too)
+            np_view = bool(numpy.size(yd)) and numpy.shares_memory(f_np(x.data[0, 0]), x.data[0, 0])
+            if np_view and not numpy.shares_memory(y.data, x.data):
                 rep.violation('op:%s:view' % key, '%s does not return a view of its operand' % name, dict(kind='op', case=meta))
 
     for it in range(n):
@@ -376,6 +387,9 @@ def check_ops(rep, algopy, rng, tier, terms, metas):
                 run('vecsym', 'vecsym', data, lambda x: algopy.vecsym(x), np_vecsym)
         cdata = rnd(D, P, shp, cx=True)
         run('conjugate', 'conjugate', cdata, lambda x: algopy.conjugate(x), lambda a: numpy.conjugate(a))
+        run('conjugate(real data)', 'conjugate', data, lambda x: algopy.conjugate(x), lambda a: numpy.conjugate(a))       # a fresh array in NumPy for real dtypes too
+        run('x.conj()', 'conjugate', data, lambda x: x.conj(), lambda a: numpy.conjugate(a))
+        run('x.T.conj()', 'conjugate', data, lambda x: x.T.conj(), lambda a: numpy.conjugate(a.T))
         run('real', 'real', cdata, lambda x: algopy.real(x), lambda a: numpy.real(a))
         run('imag', 'imag', cdata, lambda x: algopy.imag(x), lambda a: numpy.imag(a))
         import algopy.fft as afft
